@@ -143,7 +143,9 @@ Inductive op :=
 | OUpdate (now : Z) (newlevel : Z) (t : token)
 | OCliVerify (now : Z) (t : token)
 | OCliSend (now : Z) (cli_level : Z) (session_user : bs) (t : token)
-| OGetSigned (now : Z) (user : bs) (r : row).
+| OGetSigned (now : Z) (p : rpath) (user : bs) (prim cache : option row).
+  (* GetSigned(user, type) with the rows the two stores hold in that slot; p = which arm of the
+     select answered *)
 
 (* what the server answers: accepted?, the signed artefacts in the response, whom it names *)
 Record out := { o_ok : bool; o_emitted : list token; o_user : option bs }.
@@ -186,8 +188,8 @@ Definition exec (i : idp) (o : op) : out :=
       | Some t' => {| o_ok := true; o_emitted := [t']; o_user := Some u |}
       | None => refused
       end
-  | OGetSigned now u r =>
-      match c_storage (srv i) now u r with
+  | OGetSigned now p u prim cache =>
+      match get_signed_via p (srv i) now u prim cache with
       | Some _ => {| o_ok := true; o_emitted := []; o_user := Some u |}
       | None => refused
       end
@@ -198,7 +200,7 @@ Definition presented (o : op) : list token :=
   match o with
   | OToken _ r => [tr_code r]
   | OUserinfo _ t | OSession _ _ t | OUpdate _ _ t | OCliVerify _ t | OCliSend _ _ _ t => [t]
-  | OGetSigned _ _ r => [r_jws r]
+  | OGetSigned _ p _ prim cache => match answering_row p prim cache with Some r => [r_jws r] | None => [] end
   | _ => []
   end.
 
@@ -248,7 +250,9 @@ Inductive consumer :=
 | CUpdate (newlevel : Z)                        (* updateAuthJWTWithNewAuthLevel *)
 | CCliVerify                                    (* VerifyAuthTokenHandler *)
 | CCliSend (cli_level : Z) (session_user : bs)  (* SendAuthDocumentHandler *)
-| CStorage (user : bs) (col_exp : Z)            (* GetSigned *)
+| CStorage (p : rpath) (user : bs) (col_exp : Z) (other : option row)
+    (* GetSigned answered through arm p: the token sits, with expiration column col_exp, in the
+       slot of the store that answers; the other store holds [other] *)
 | CToken (r : treq)                             (* token endpoint; the code of [r] is replaced *)
 | CUserinfo.
 
@@ -256,7 +260,7 @@ Definition consumes (c : consumer) : kind :=
   match c with
   | CSession _ | CUpdate _ => KSession
   | CCliVerify | CCliSend _ _ => KCli
-  | CStorage _ _ => KStorage
+  | CStorage _ _ _ _ => KStorage
   | CToken _ => KCode
   | CUserinfo => KAccess
   end.
@@ -272,7 +276,12 @@ Definition op_of (now : Z) (c : consumer) (t : token) : op :=
   | CUpdate l => OUpdate now l t
   | CCliVerify => OCliVerify now t
   | CCliSend l u => OCliSend now l u t
-  | CStorage u col => OGetSigned now u {| r_col_exp := col; r_jws := t |}
+  | CStorage p u col other =>
+      let r := Some {| r_col_exp := col; r_jws := t |} in
+      match p with
+      | PPrimary => OGetSigned now p u r other
+      | PCache => OGetSigned now p u other r
+      end
   | CToken r => OToken now (with_code r t)
   | CUserinfo => OUserinfo now t
   end.
